@@ -1687,7 +1687,20 @@ pub fn from_reader_with_options<'a, R: std::io::Read + 'a, T: DeserializeOwned>(
         match shared_ring.get_recent() {
             Ok(snapshot) => {
                 let text = String::from_utf8_lossy(&snapshot.bytes);
-                e.with_snippet_offset(&text, snapshot.start_line, crop_radius)
+                if snapshot.starts_mid_line {
+                    // Only a tail of line `start_line` is left in the ring; columns of a location
+                    // on that line cannot be mapped into it. Start at the next full line.
+                    match text.find('\n') {
+                        Some(i) => e.with_snippet_offset(
+                            &text[i + 1..],
+                            snapshot.start_line.saturating_add(1),
+                            crop_radius,
+                        ),
+                        None => e,
+                    }
+                } else {
+                    e.with_snippet_offset(&text, snapshot.start_line, crop_radius)
+                }
             }
             Err(_) => e, // If we can't get the snapshot, return the error as-is
         }
